@@ -154,10 +154,8 @@ Print Assumptions C09_oracle_ok.
 
 (* ---- the same at the level of the PUBLIC API of term.c (TermApiDefs.v: tickit_term_goto / move /
    print / printn / erasech / clear / scrollrect / setpen / chpen / flush / set_output_buffer as written
-   there).  A call is the driver request it stands for -- except printn with length 0, where write_str's
-   "0 means strlen" writes the whole string (recorded deviation, root cause DESIGN section 11 #3) *)
+   there, with the fix C09-printn-zero-length).  A call is the driver request it stands for *)
 Theorem C09_api_step_req : forall t a q, req_of_api a = Some q -> api_args_okb a = true ->
-  printn_trigger a = false ->
   api_step t a = match drv_req t q with
                  | Some (t', ret, ts) => Some (t', ts, result_of a ret)
                  | None => None
@@ -166,22 +164,27 @@ Proof. exact api_step_req. Qed.
 Print Assumptions C09_api_step_req.
 
 (* sequences of calls, by induction: every drawing / pen call whose request is in range (and outside
-   the two recorded trigger classes, [api_excl]) has the request's direct effect; flush,
+   the recorded reverse-video right-edge class, [api_excl]) has the request's direct effect; flush,
    set_output_buffer and getctl write nothing *)
 Theorem C09_api_sequence_partial : forall l t v, vt_ok v -> SInv t v -> Forall api_pen_ok l ->
   api_seq_ok t v l.
 Proof. exact api_sequence_partial. Qed.
 Print Assumptions C09_api_sequence_partial.
 
-(* FULL statement (false): [api_seq_ok] without [api_excl] -- witness for the printn deviation *)
+(* about the PINNED tree (repaired since): tickit_term_printn forwarded its length unchanged, and
+   write_str reads 0 as "use strlen": printn("AB", 0) wrote AB although nothing was requested ... *)
 Theorem C09_printn_zero_refuted :
   let v := vt_run xt_start (vt_init 2 5) in
-  let t := mkTerm xdrv_new true empty_pen 2 5 in
-  vt_ok v /\ SInv t v /\ in_range (RPrint []) v /\ printn_trigger (APrintn [65; 66] 0) = true /\
-  exists ts, api_step t (APrintn [65; 66] 0) = Some (t, ts, None) /\
+  vt_ok v /\ in_range (RPrint []) v /\ printn_trigger (APrintn [65; 66] 0) = true /\
+  exists ts, printn_pinned [65; 66] 0 = Some ts /\
              ~ effect_ok (RPrint []) true (match ts with [] => true | _ => false end) v (vt_run ts v).
 Proof. exact printn_zero_refuted. Qed.
 Print Assumptions C09_printn_zero_refuted.
+
+(* ... the repaired function writes nothing for length 0 *)
+Theorem C09_printn_zero_fixed : forall t str, api_step t (APrintn str 0) = Some (t, [], None).
+Proof. exact printn_zero_fixed. Qed.
+Print Assumptions C09_printn_zero_fixed.
 
 (* non-vacuity: a 4x5 patterned screen, a DECSLRM-capable driver; scrolling the 2x3 rectangle
    at (1,1) by (1,-1) is in range, succeeds with a non-empty token list, and the cell at (1,2)
